@@ -102,8 +102,9 @@ Proof.
   destruct (tdiv_qr_spec n d Hd) as (q & r & E1 & S1).
   destruct (fdiv_qr_spec n d Hd) as (q' & r' & E2 & S2).
   exists q, r, q', r'.
-  unfold nt_quotient_mod, nt_quotient, nt_mod, nt_quotient_mod_f, nt_quotient_f, nt_mod_f,
+  unfold nt_quotient_mod, nt_quotient, nt_mod, nt_quotient_mod_f, nt_quotient_f, nt_mod_f, nz,
     tdiv_q, tdiv_r, fdiv_q, fdiv_r.
+  destruct (d =? 0) eqn:E0; [lia|].
   rewrite E1, E2. cbn [bind]. repeat split; try reflexivity; try apply S1; apply S2.
 Qed.
 
